@@ -1,14 +1,456 @@
-"""Counterexample lifting and native replay (DESIGN.md §6) — filled in below."""
-import os
+"""Counterexample lifting and native replay (DESIGN.md §6).
 
-from . import kani
+A solver counterexample is never reported by itself.  Its concrete input text (decoded from
+Kani's concrete playback values) is embedded behind API-level context prefixes, and — because a
+unit-level counterexample often needs surrounding program text to be reachable through
+`lex_program` — the property's API-level oracle is also evaluated on a replay corpus (the
+repository's own inline test strings, a hand-written construct list, and every truncation of the
+short ones).  Only an input on which the natively built lexer (dev + release, with and without
+`macro_sep`) violates the SAME property is reported, as the replay file of the VIOLATION line.
+"""
+import hashlib
+import json
+import os
+import re
+import shutil
+import subprocess
+import sys
+
+from . import kani, findings
+
+REPLAY_DIR = os.environ.get("VERIF_REPLAY_DIR", os.path.join(kani.VERIF, "replay"))
+REPLAYS_OUT = os.path.join(kani.VERIF, "replays")
+CACHE = os.path.join(kani.VERIF, ".cache")
+BIN = {
+    ("plain", "debug"): os.path.join(REPLAY_DIR, "target/plain/debug/verif-replay"),
+    ("plain", "release"): os.path.join(REPLAY_DIR, "target/plain/release/verif-replay"),
+    ("sep", "debug"): os.path.join(REPLAY_DIR, "target/sep/debug/verif-replay"),
+    ("sep", "release"): os.path.join(REPLAY_DIR, "target/sep/release/verif-replay"),
+}
+SINGLE_RUN = {"C01", "C02", "C03", "C04", "C05", "C06", "C07", "C08", "C09", "C10", "C11"}
+_built = [False]
+
+CONTEXTS = {
+    "default": ["", "x;\n", "data a;\n"],
+    "semi_text": ["%put ", "%let a="],
+    "stat_opts": ["%goto ", "%macro m/ "],
+    "arg_value": ["%m(a=", "%scan(", "%upcase(", "%m(b=(", "%macro m(a="],
+    "arg_or_value": ["%m(", "%m(a,"],
+    "str_call": ["%str(", "%nrstr(", "%str(("],
+    "str_expr": ["\"", "x=\"&a", "%put \""],
+    "eval": ["%eval(", "%if ", "%sysevalf(", "%do i=1 %to ", "%eval(("],
+    "name_expr": ["%let ", "%do "],
+    "after_ident": ["%m", "a %m", "%macro x; %m"],
+    "after_do": ["%do", "%do "],
+    "in_macro": ["%macro m;\n", "%macro m; a=1"],
+    "quote": ["", "x=", "%put "],
+    "eof": [""],
+}
+SUFFIXES = ["", ";", ")", ");", "\n"]
+
+
+def build():
+    if _built[0]:
+        return True
+    p = subprocess.run(["bash", os.path.join(REPLAY_DIR, "build.sh")], capture_output=True, text=True)
+    _built[0] = p.returncode == 0
+    if not _built[0]:
+        print("replay build failed:\n" + (p.stdout + p.stderr)[-1500:])
+    return _built[0]
+
+
+def _repo_test_literals():
+    src = os.path.join(kani.CRATE, "src/lexer/tests/test_inline_strings.rs")
+    lits = set()
+    try:
+        txt = open(src, encoding="utf-8").read()
+    except OSError:
+        return []
+    for m in re.finditer(r'r#"(.*?)"#', txt, re.S):
+        lits.add(m.group(1))
+
+    def unesc(mm):
+        c = mm.group(1)
+        table = {"n": "\n", "t": "\t", "r": "\r", "0": "\0", "\\": "\\", '"': '"', "'": "'"}
+        if c in table:
+            return table[c]
+        if c.startswith("u{"):
+            return chr(int(c[2:-1], 16))
+        if c.startswith("\n"):
+            return ""
+        return "\\" + c
+
+    for m in re.finditer(r'(?<![r#])"((?:[^"\\]|\\.)*)"', txt, re.S):
+        lits.add(re.sub(r"\\(u\{[0-9a-fA-F]+\}|\n\s*|.)", unesc, m.group(1), flags=re.S))
+    return sorted(lits)
+
+
+def _extra_corpus():
+    out = []
+    p = os.path.join(REPLAY_DIR, "corpus_extra.txt")
+    if os.path.exists(p):
+        for ln in open(p, encoding="utf-8"):
+            ln = ln.rstrip("\n")
+            if not ln or ln.startswith("#"):
+                continue
+            out.append(json.loads('"' + ln.replace('"', '\\"') + '"') if "\\" in ln else ln)
+    sd = os.path.join(kani.CRATE, "src/lexer/tests/samples")
+    if os.path.isdir(sd):
+        for f in sorted(os.listdir(sd)):
+            if f.endswith(".sas"):
+                try:
+                    out.append(open(os.path.join(sd, f), encoding="utf-8").read())
+                except OSError:
+                    pass
+    return out
+
+
+def corpus():
+    base = _extra_corpus() + _repo_test_literals()
+    seen = set()
+    out = []
+    for s in base:
+        if s not in seen:
+            seen.add(s)
+            out.append(s)
+    # multi-byte / BOM variants and truncations of the short ones (end-of-input recovery)
+    extra = []
+    for s in out:
+        if len(s) <= 48:
+            for k in range(1, len(s)):
+                extra.append(s[:k])
+        if len(s) <= 120:
+            extra.append("\ufeff" + s)
+            extra.append("/*\u00e9\U0001f525*/" + s)
+            extra.append("\u00e9=1;\n" + s)
+    for s in extra:
+        if s not in seen:
+            seen.add(s)
+            out.append(s)
+    return out
+
+
+def _write_dir(name, inputs):
+    d = os.path.join(CACHE, name)
+    shutil.rmtree(d, ignore_errors=True)
+    os.makedirs(d)
+    idx = {}
+    for i, s in enumerate(inputs):
+        fn = "%06d.sas" % i
+        with open(os.path.join(d, fn), "w", encoding="utf-8", newline="") as f:
+            f.write(s)
+        idx[fn] = s
+    return d, idx
+
+
+def _run_many(exe, mode_args, d):
+    p = subprocess.run([exe] + mode_args + [d], capture_output=True, text=True, errors="replace")
+    res = {}
+    cur = None
+    for ln in p.stdout.split("\n"):
+        if ln.startswith("@@ "):
+            name, _, rest = ln[3:].partition("\t")
+            cur = name
+            res[cur] = [rest]
+        elif cur is not None:
+            res[cur].append(ln)
+    return res
+
+
+def decode_txt(vals, fixed):
+    """Concrete values of a Txt-based harness: first `extra` (usize), then that many chars."""
+    if not vals or len(vals[0]) != 8:
+        return None
+    extra = int.from_bytes(bytes(vals[0]), "little")
+    if extra > 16 or len(vals) < 1 + extra:
+        return None
+    chars = list(fixed)
+    for v in vals[1:1 + extra]:
+        if len(v) != 4:
+            return None
+        cp = int.from_bytes(bytes(v), "little")
+        try:
+            chars.append(chr(cp))
+        except ValueError:
+            return None
+    try:
+        s = "".join(chars)
+        s.encode("utf-8")
+        return s
+    except UnicodeEncodeError:
+        return None
+
+
+def candidates_from_cex(h, cfg, tests):
+    out = []
+    fixed = h.get("fixed") or ""
+    ctxs = []
+    for c in (h.get("contexts") or ["default"]):
+        ctxs += CONTEXTS.get(c, [c])
+    for vals in tests:
+        txt = decode_txt(vals, fixed) if h.get("decoder") == "txt" else None
+        if txt is None:
+            continue
+        for pre in ctxs:
+            for suf in SUFFIXES:
+                out.append(pre + txt + suf)
+                out.append("\u00e9;\n" + pre + txt + suf)
+    return out
+
+
+def _violates_single(pid, results_line, cfg_kind):
+    first = results_line[0] if results_line else ""
+    if first.startswith("FAIL " + pid):
+        return first
+    if pid == "C01" and (first.startswith("PANIC") or first.startswith("TIMEOUT")):
+        return first
+    return None
+
+
+def _strip_dump(lines, drop_sep=False):
+    """canonical comparison form of a dump: tokens (type, channel, offsets, lines, payload), errors, literal buffer"""
+    toks, errs, lit = [], [], None
+    for ln in lines:
+        if ln.startswith("T "):
+            f = ln.split(" ")
+            toks.append(f[2:])
+        elif ln.startswith("E "):
+            errs.append(ln.split(" ")[1:])
+        elif ln.startswith("L "):
+            lit = ln[2:]
+    if drop_sep:
+        keep, shift = [], []
+        removed = 0
+        for t in toks:
+            if t[0] == "MacroSep":
+                removed += 1
+            else:
+                keep.append(t)
+            shift.append(removed)
+        # renumber error last_token indices
+        new_errs = []
+        for e in errs:
+            lt = int(e[-1])
+            if lt >= 0:
+                lt = lt - shift[lt] if lt < len(shift) else lt
+            new_errs.append(e[:-1] + [str(lt)])
+        toks, errs = keep, new_errs
+    return toks, errs, lit
+
+
+def _sep_placement_bad(lines):
+    toks = [ln.split(" ") for ln in lines if ln.startswith("T ")]
+    prev_def = None
+    STAT = re.compile(r"^(MacroLabel|Kwm(Abort|Copy|Display|Global|Goto|Input|Local|Put|Return|Symdel|Syscall|Sysexec|Syslput|Sysmacdelete|Sysmstoreclear|Sysrput|Window|Macro|Mend|Let|If|Else|Do|End))$")
+    for i, t in enumerate(toks):
+        tt, ch = t[2], t[3]
+        if tt == "MacroSep":
+            if t[4] != t[5] or ch != "DEFAULT":
+                return "MacroSep not zero-width on the default channel"
+            nxt = next((u for u in toks[i + 1:] if u[3] == "DEFAULT"), None)
+            if nxt is None or not STAT.match(nxt[2]):
+                return "MacroSep not directly before a macro statement keyword or label"
+            if prev_def in (None, "SEMI", "MacroLabel", "KwmThen", "KwmElse"):
+                return f"MacroSep directly after {prev_def}"
+        if ch == "DEFAULT":
+            prev_def = tt
+    return None
+
+
+def differential(pid, inputs):
+    """Differential properties evaluated natively on `inputs`; returns (input, message) or None."""
+    if not inputs:
+        return None
+    d, idx = _write_dir(f"diff-{pid}", inputs)
+    if pid == "C19":
+        a = _run_many(BIN[("plain", "debug")], ["dumpm"], d)
+        b = _run_many(BIN[("plain", "release")], ["dumpm"], d)
+        for fn in sorted(idx):
+            ra, rb = a.get(fn, ["?"]), b.get(fn, ["?"])
+            if ra[0].startswith("PANIC") or rb[0].startswith("PANIC") or ra[0].startswith("TIMEOUT") or rb[0].startswith("TIMEOUT"):
+                if ra[0].split(" ")[0] != rb[0].split(" ")[0]:
+                    return idx[fn], f"debug build: {ra[0][:80]} / release build: {rb[0][:80]}"
+                continue
+            if _strip_dump(ra) != _strip_dump(rb):
+                return idx[fn], "debug and release builds return different results"
+    elif pid == "C18":
+        a = _run_many(BIN[("plain", "debug")], ["dumpm"], d)
+        b = _run_many(BIN[("sep", "debug")], ["dumpm"], d)
+        a2 = _run_many(BIN[("plain", "release")], ["dumpm"], d)
+        b2 = _run_many(BIN[("sep", "release")], ["dumpm"], d)
+        for fn in sorted(idx):
+            for ra, rb in ((a.get(fn, ["?"]), b.get(fn, ["?"])), (a2.get(fn, ["?"]), b2.get(fn, ["?"]))):
+                if not (ra[0].startswith("DUMP") and rb[0].startswith("DUMP")):
+                    if ra[0].split(" ")[0] != rb[0].split(" ")[0]:
+                        return idx[fn], f"feature off: {ra[0][:80]} / feature on: {rb[0][:80]}"
+                    continue
+                if _strip_dump(ra) != _strip_dump(rb, drop_sep=True):
+                    return idx[fn], "macro_sep build differs from the plain build by more than MacroSep tokens"
+                bad = _sep_placement_bad(rb)
+                if bad:
+                    return idx[fn], bad
+    elif pid == "C17":
+        boms = ["\ufeff" + s for s in inputs if not s.startswith("\ufeff")]
+        plain = [s for s in inputs if not s.startswith("\ufeff")]
+        d1, i1 = _write_dir("diff-C17a", plain)
+        d2, i2 = _write_dir("diff-C17b", boms)
+        for kind in ("debug", "release"):
+            a = _run_many(BIN[("plain", kind)], ["dumpm"], d1)
+            b = _run_many(BIN[("plain", kind)], ["dumpm"], d2)
+            for fn in sorted(i1):
+                ra, rb = a.get(fn, ["?"]), b.get(fn, ["?"])
+                if not (ra[0].startswith("DUMP") and rb[0].startswith("DUMP")):
+                    continue
+                ta, ea, la = _strip_dump(ra)
+                tb, eb, lb = _strip_dump(rb)
+                exp_t = [[t[0], t[1], str(int(t[2]) + 3), str(int(t[3]) + 3), str(int(t[4]) + 1), str(int(t[5]) + 1)] + t[6:] for t in ta]
+                exp_e = [[e[0], str(int(e[1]) + 3), str(int(e[2]) + 1)] + e[3:] for e in ea]
+                if exp_t != tb or exp_e != eb or la != lb:
+                    return i2[fn], "a leading byte-order mark changes more than the offsets (+3 bytes, +1 char)"
+    elif pid == "C16":
+        variants = []
+        for s in inputs:
+            for v in (s.upper(), s.lower(), s.swapcase()):
+                # only ASCII letters may change
+                w = "".join(b if (a.isascii() and a.isalpha()) else a for a, b in zip(s, v)) if len(v) == len(s) else None
+                if w is not None and w != s:
+                    variants.append((s, w))
+        d1, i1 = _write_dir("diff-C16a", [a for a, _ in variants])
+        d2, i2 = _write_dir("diff-C16b", [b for _, b in variants])
+        for kind in ("debug", "release"):
+            a = _run_many(BIN[("plain", kind)], ["dumpm"], d1)
+            b = _run_many(BIN[("plain", kind)], ["dumpm"], d2)
+            for fn in sorted(i1):
+                ra, rb = a.get(fn, ["?"]), b.get(fn, ["?"])
+                if not (ra[0].startswith("DUMP") and rb[0].startswith("DUMP")):
+                    if ra[0].split(" ")[0] != rb[0].split(" ")[0]:
+                        return i2[fn], "letter case changes whether lexing returns"
+                    continue
+                ta, ea, _ = _strip_dump(ra)
+                tb, eb, _ = _strip_dump(rb)
+
+                def canon(toks):
+                    # string payload ranges are positions in the (case-dependent) literal buffer: compare presence only
+                    return [t[:-1] + [t[-1] if not t[-1].startswith("S") else "S"] for t in toks]
+                if canon(ta) != canon(tb) or ea != eb:
+                    return i2[fn], f"tokenization depends on ASCII letter case (variant of {i1[fn]!r})"
+    elif pid == "C15":
+        closers = ["x=1;\n", "%let a=1;\n", "data a; set b; run;\n", "%put done;\n", "/* c */ y;\n", "%macro m; %mend;\n"]
+        pairs = [(a, b) for a in closers for b in inputs[:400]]
+        dA, iA = _write_dir("diff-C15a", closers)
+        dB, iB = _write_dir("diff-C15b", inputs[:400])
+        dAB, iAB = _write_dir("diff-C15ab", [a + b for a, b in pairs])
+        for kind in ("debug", "release"):
+            ra_all = _run_many(BIN[("plain", kind)], ["dumpm"], dA)
+            rb_all = _run_many(BIN[("plain", kind)], ["dumpm"], dB)
+            rab_all = _run_many(BIN[("plain", kind)], ["dumpm"], dAB)
+            k = 0
+            for ai, a in enumerate(closers):
+                ra = ra_all.get("%06d.sas" % ai, ["?"])
+                for bi, b in enumerate(inputs[:400]):
+                    rab = rab_all.get("%06d.sas" % k, ["?"])
+                    rb = rb_all.get("%06d.sas" % bi, ["?"])
+                    k += 1
+                    if not (ra[0].startswith("DUMP") and rb[0].startswith("DUMP") and rab[0].startswith("DUMP")):
+                        if rb[0].split(" ")[0] != rab[0].split(" ")[0]:
+                            return a + b, "a closed prefix changes whether lexing of the continuation returns"
+                        continue
+                    ta, ea, la = _strip_dump(ra)
+                    tb, eb, lb = _strip_dump(rb)
+                    tab, eab, lab = _strip_dump(rab)
+                    ab, ac = len(a.encode()), len(a)
+                    al = a.count("\n")
+                    na = len(ta) - 1
+                    # string payloads shift by the literal length of A
+                    la_len = len(json.loads(la)) if la else 0
+
+                    def sh(t):
+                        s_l, s_c = t[6].split(":")
+                        e_l, e_c = t[7].split(":")
+                        # columns only shift on A's last line; closers end in '\n' so they do not shift
+                        pl = t[8]
+                        if pl.startswith("S"):
+                            x, y = pl[1:].split("-")
+                            pl = "S%d-%d" % (int(x) + la_len, int(y) + la_len)
+                        return [t[0], t[1], str(int(t[2]) + ab), str(int(t[3]) + ab), str(int(t[4]) + ac), str(int(t[5]) + ac),
+                                "%d:%s" % (int(s_l) + al, s_c), "%d:%s" % (int(e_l) + al, e_c), pl]
+                    exp_t = ta[:-1] + [sh(t) for t in tb]
+                    exp_e = ea + [[e[0], str(int(e[1]) + ab), str(int(e[2]) + ac), "%d:%s" % (int(e[3].split(":")[0]) + al, e[3].split(":")[1]),
+                                   str(int(e[4]) + na if int(e[4]) >= 0 else (na - 1 if na > 0 else -1))] for e in eb]
+                    if exp_t != tab or exp_e != eab:
+                        return a + b, "result for A+B is not result(A) followed by shifted result(B)"
+    return None
+
+
+def _save(pid, text):
+    os.makedirs(os.path.join(REPLAYS_OUT, pid), exist_ok=True)
+    h = hashlib.sha256(text.encode("utf-8")).hexdigest()[:16]
+    path = os.path.join(REPLAYS_OUT, pid, h + ".sas")
+    with open(path, "w", encoding="utf-8", newline="") as f:
+        f.write(text)
+    return path
+
+
+def search(pid, inputs, cfg="debug"):
+    """First input (in order) on which the natively built lexer violates `pid`. Returns (text, msg) or None."""
+    if pid in SINGLE_RUN:
+        d, idx = _write_dir(f"cand-{pid}", inputs)
+        kinds = [("plain", "debug"), ("plain", "release"), ("sep", "debug"), ("sep", "release")]
+        for k in kinds:
+            res = _run_many(BIN[k], ["checkm", pid], d)
+            for fn in sorted(idx):
+                v = _violates_single(pid, res.get(fn), k)
+                if v:
+                    return idx[fn], f"[{k[0]}/{k[1]}] {v[:300]}"
+        return None
+    return differential(pid, inputs)
 
 
 def confirm(pid, h, cfg, r, mine, known):
-    msgs = "; ".join(fc["desc"] for fc in mine[:4])
-    return [("inconclusive", None, f"solver counterexample not yet replayed natively: {msgs}")]
+    """Called for a harness whose solver run produced a counterexample tagged with `pid`."""
+    descs = "; ".join(sorted({fc["desc"] for fc in mine}))[:400]
+    if not build():
+        return [("inconclusive", None, "replay binaries could not be built")]
+    tests = []
+    try:
+        tests, _ = kani.concrete_playback(h, cfg, min(h["timeout"], 1500), h["mem"])
+    except Exception as e:  # pragma: no cover
+        print("concrete playback failed:", e)
+    cands = candidates_from_cex(h, cfg, tests)
+    out = []
+    seen_known = []
+    remaining = cands + corpus()
+    # skip inputs recorded as known findings of this property, reporting them
+    for attempt in range(6):
+        hit = search(pid, remaining, cfg)
+        if hit is None:
+            break
+        text, msg = hit
+        k = findings.match(known, pid, text)
+        if k is not None:
+            seen_known.append(json.dumps(text) + " :: " + k["what"])
+            remaining = [s for s in remaining if s != text]
+            continue
+        path = _save(pid, text)
+        out.append(("violation", path, f"{descs} -- reproduced through lex_program: {msg}"))
+        break
+    for k in seen_known:
+        out.append(("known", None, k))
+    if not any(o[0] == "violation" for o in out):
+        out.append(("inconclusive", None,
+                    f"solver counterexample ({descs}) did not reproduce through the public API on "
+                    f"{len(cands)} lifted inputs + the replay corpus: the pre-state may be unreachable or the corpus too small"))
+    return out
 
 
 def replay_file(pid, path):
-    print("replay not implemented yet")
-    return 2
+    if not build():
+        return 2
+    text = open(path, encoding="utf-8").read()
+    hit = search(pid, [text])
+    if hit is None:
+        print(f"replay {path}: property {pid} holds on this input (all native build configurations)")
+        return 0
+    print(f"VIOLATION property={pid} replay={path}")
+    print("  " + hit[1])
+    return 1
